@@ -124,7 +124,7 @@ Proof.
   - (* conditional *)
     use_p (Hg 3 noin) HR e1 r1 r1' X; [|exact I]. inv_R X nl nl' t Hf r r' Hr; [keep|].
     dtok t o; try keep.
-    use_p (Hg 1 noin) Hr e2 r2 r2' Y; [|exact I]. inv_R Y nl3 nl3' t3 Hf3 r3 r3' Hr3; [exact I|].
+    use_p (Hg 1 false) Hr e2 r2 r2' Y; [|exact I]. inv_R Y nl3 nl3' t3 Hf3 r3 r3' Hr3; [exact I|].
     dtok t3 o; try exact I.
     use_p (Hg 1 noin) Hr3 e4 r4 r4' W; [|exact I]. simpl. auto.
   - (* relational *)
